@@ -1,9 +1,9 @@
 CFG = dict(
-    lean_modules=["SaramaVerif.Model.IdemBroker", "SaramaVerif.Model.Producer", "SaramaVerif.Props.C01", "SaramaVerif.Props.C05"],
+    lean_modules=["SaramaVerif.Model.IdemBroker", "SaramaVerif.Model.Producer", "SaramaVerif.Props.C01", "SaramaVerif.Props.C05", "SaramaVerif.Props.C05stamps"],
     lean_support=["SaramaVerif.Driver.ProducerTrace"],
     model="C05",
     overlay=["sim", "c05"],
-    required_theorems=["Props.C05.arrive_inv", "Props.C05.arriveAll_inv", "Props.C05.no_two_records_share_stamp",
+    required_theorems=["Props.C05stamps.stamps_never_repeat", "Props.C05stamps.stamps_dense", "Props.C05stamps.step_sinv", "Props.C05.arrive_inv", "Props.C05.arriveAll_inv", "Props.C05.no_two_records_share_stamp",
                        "Props.C05.no_duplicate_append", "Props.C05.resend_is_deduplicated",
                        "Props.C05.sequence_assigned_once", "Props.C05.sequence_only_on_first_forward"],
     n={"quick": 700, "thorough": 12000, "search": 1500},
